@@ -870,7 +870,14 @@ fn cmd_c04(seed: u64, n: u64, ops_path: &str, impl_path: &str) -> Result<()> {
         idx.truncate(keep);
         // every third generated module imports one of its API functions a second time (valid Wasm)
         let dup = if rng.below(3) == 0 { Some(idx[rng.below(idx.len() as u64) as usize]) } else { None };
-        let g = GuestSpec { apis: idx.clone(), foreign_first: rng.below(2) == 0, foreign_between: rng.below(2) == 0, own_stuff: rng.below(2) == 0, memories: 1, module_name: API_MODULE.into(), own_state: true, foreign_memory: rng.below(3) == 0, bad_sig: None, extra_import: None, dup: dup.map(|k| (k, api[k].sig.clone())), nonfunc: None, extra_nonfunc: None };
+        let mut g = GuestSpec { apis: idx.clone(), foreign_first: rng.below(2) == 0, foreign_between: rng.below(2) == 0, own_stuff: rng.below(2) == 0, memories: 1, module_name: API_MODULE.into(), own_state: true, foreign_memory: rng.below(3) == 0, bad_sig: None, extra_import: None, dup: dup.map(|k| (k, api[k].sig.clone())), nonfunc: None, extra_nonfunc: None };
+        if mi % 5 == 3 {
+            // a guest that imports the provider's memory itself (to peek at it); its API imports still
+            // need their trampolines
+            g.foreign_memory = false;
+            g.own_stuff = false;
+            g.extra_nonfunc = Some(("memory".to_string(), 2));
+        }
         let wasm = wat::parse_str(&build_guest(&api, &g))?;
         modules.push((trampoline(&wasm)?, idx, false, dup));
     }
@@ -1065,7 +1072,7 @@ fn cmd_c07(seed: u64, n: u64, ops_path: &str, impl_path: &str) -> Result<()> {
         let keep = rng.range(0, api.len() as u64) as usize;
         idx.truncate(keep);
         let mut g = GuestSpec { apis: idx.clone(), foreign_first: rng.below(2) == 0, foreign_between: rng.below(2) == 0, own_stuff: true, memories: 1, module_name: API_MODULE.into(), own_state: true, foreign_memory: false, bad_sig: None, extra_import: None, dup: None, nonfunc: None, extra_nonfunc: None };
-        let variant = i % 14;
+        let variant = i % 15;
         let vname = match variant {
             0 | 1 => "valid",
             2 => {
@@ -1137,6 +1144,12 @@ fn cmd_c07(seed: u64, n: u64, ops_path: &str, impl_path: &str) -> Result<()> {
             11 => {
                 g.nonfunc = Some(rng.below(api.len() as u64) as usize);
                 "non-function-api-name"
+            }
+            14 => {
+                // a guest that imports the provider's memory itself (allowed) next to public API functions:
+                // it must be trampolined like any other
+                g.extra_nonfunc = Some(("memory".to_string(), 2));
+                "imports-provider-memory"
             }
             13 => {
                 // no memory of its own, only an imported one: still "no memory" for the tool
